@@ -145,3 +145,32 @@ def dead_definitions(ctx, rule, files):
                "(overwritten or dropped first): the computation it belongs to does not reach the result",
                role="dead-definition" + ("" if not dead else ":" + ",".join(dead)), line=f.node.lineno)
     return n
+
+
+def memo_keys(ctx, rule, files):
+    """a module-level (or class-level) dictionary used as a memo table: the key must determine the cached value"""
+    from ..dataflow import derives
+    ctx.explain(f"{rule}: (memo keys) where a function stores a value under a key in a module-level dictionary (a memo table), every "
+                "parameter of the function that the stored value is computed from is also part of the key - otherwise a later call "
+                "with another value of the omitted parameter is answered from the cache.")
+    rels = {x[len("strawberryfields/"):] if x.startswith("strawberryfields/") else x for x in files}
+    n = 0
+    for f in ctx.tree.all_functions():
+        if f.module.rel not in rels:
+            continue
+        glob = {k for k, vs in f.module.globals.items() if any(isinstance(v, (ast.Dict,)) or isinstance(v, ast.Call) and
+                                                              dotted(v.func) in ("dict", "collections.OrderedDict", "OrderedDict") for v in vs)}
+        if not glob:
+            continue
+        params = set(f.params) - {"self", "cls"}
+        for st in walk_no_nested(f.node):
+            if not (isinstance(st, ast.Assign) and isinstance(st.targets[0], ast.Subscript) and isinstance(st.targets[0].value, ast.Name)
+                    and st.targets[0].value.id in glob):
+                continue
+            n += 1
+            dk = derives(f.node, st.targets[0].slice)
+            dv = derives(f.node, st.value)
+            miss = sorted((dv.params & params) - dk.params)
+            ctx.ob(rule, f.site, not miss, "" if not miss else f"`{ast.unparse(st)[:60]}`: the cached value depends on {miss}, the key does "
+                   "not: a call with another value of it is answered with the stale entry", role="memo-key-complete", line=st.lineno)
+    return n
